@@ -11,6 +11,7 @@ package models
 //@
 //@ func (i *InboundFee) CalcFee
 //@   props C09 C19
+//@   bounds-safe
 //@   requires amt <= 922337203685 || (-1000000 <= i.Rate && i.Rate <= 1000000 && amt <= 1<<42)
 //@   ensures  result == inFee(i.Base, i.Rate, amt)
 //@   nowrap
@@ -19,6 +20,7 @@ package models
 //@
 //@ func (c *CachedEdgePolicy) ComputeFee
 //@   props C09 C19
+//@   bounds-safe
 //@   requires amt <= 1<<40 && c.FeeProportionalMillionths <= 1000000 && c.FeeBaseMSat < 1<<32
 //@   ensures  result == outFee(c.FeeBaseMSat, c.FeeProportionalMillionths, amt)
 //@   nowrap
@@ -26,6 +28,7 @@ package models
 //@
 //@ func (c *ChannelEdgePolicy) ComputeFee
 //@   props C09 C19
+//@   bounds-safe
 //@   requires amt <= 1<<40 && c.FeeProportionalMillionths <= 1000000 && c.FeeBaseMSat < 1<<32
 //@   ensures  result == outFee(c.FeeBaseMSat, c.FeeProportionalMillionths, amt)
 //@   nowrap
